@@ -231,10 +231,12 @@ fn make_base(prof: &Profile, seed: u64, i: usize, real: Option<&mut dyn Write>) 
     let scripted = prof.name == "entry-sat" && rng.chance(1, 4);
     // displaced-group construction (gen::displaced_group_script) in the entry profiles
     let displaced = !scripted && matches!(prof.name, "entry-sat" | "entry-full" | "entry") && rng.chance(1, 8);
+    // HashTable whose last remaining element is displaced (gen::last_displaced_script)
+    let lastd = matches!(prof.name, "table" | "table-churn") && lay != "zst" && rng.chance(1, 8);
     // two maps with different bucket counts and equal capacity() (gen::capacity_twin_script)
     let twin = prof.name == "clone" && rng.chance(1, 6);
-    let kind = if scripted || displaced || twin { "sequential" } else { kind };
-    let universe = if displaced { 4096 } else if scripted || twin { 1024 } else { universe };
+    let kind = if scripted || displaced || twin || lastd { "sequential" } else { kind };
+    let universe = if displaced || lastd { 4096 } else if scripted || twin { 1024 } else { universe };
     let kind = if prof.name == "churn-window" && rng.chance(2, 3) { "sequential" } else { kind };
     // table-churn: long probe chains (three and more groups) inside tables of 64-256 buckets, so that the
     // in-place rehash of a HashTable has to judge elements whose ideal group is several probe steps away
@@ -289,6 +291,10 @@ fn make_base(prof: &Profile, seed: u64, i: usize, real: Option<&mut dyn Write>) 
         g.script = gen::stale_slot_script(&mut rng);
     }
     let mut steps = steps;
+    if lastd {
+        g.script = gen::last_displaced_script(&mut rng);
+        steps = steps.max(g.script.len() + 10);
+    }
     if twin {
         g.script = gen::capacity_twin_script(&mut rng);
         steps = steps.max(g.script.len() + 10);
